@@ -99,12 +99,15 @@ type nearEntry struct {
 }
 
 // batchLine: fail lists the (1-based) entries whose call panicked, nan those
-// with a non-finite or out-of-budget real among the facts or the answer.
+// with a non-finite or out-of-budget real among the FACTS (the input is then
+// outside what the harness can project), nana those where the ANSWER of the
+// index is non-finite or out of budget (the answer is then simply wrong).
 type batchLine struct {
 	K    string      `json:"k"`
 	Case int         `json:"case"`
 	Fail []int       `json:"fail"`
 	Nan  []int       `json:"nan"`
+	Nana []int       `json:"nana"`
 	B    interface{} `json:"b"`
 }
 
